@@ -27,7 +27,7 @@ inline Prog decode(hz::Reader &r, bool allow_self_stop) {
     uint8_t amask = r.u8();
     for (unsigned i = 0; i < n; i++) p.jobs[i].again = (uint8_t)(p.jobs[i].kind == K_COAWAIT && ((amask >> i) & 1));
     for (unsigned i = 0; i < n; i++) p.jobs[i].conc = (uint8_t)(p.jobs[i].kind == K_COAWAIT_AWT_PENDING && ((amask >> (i + 4)) & 1));
-    for (unsigned i = 0; i < n; i++) p.jobs[i].big = (uint8_t)((p.jobs[i].kind == K_RUN_FN || p.jobs[i].kind == K_RUN_DETACHED || p.jobs[i].kind == K_RESUME_SP) && ((amask >> (i + 4)) & 1));     // (resume(suspend_point): the suspend point carries TWO coroutines)
+    for (unsigned i = 0; i < n; i++) p.jobs[i].big = (uint8_t)((p.jobs[i].kind == K_RUN_FN || p.jobs[i].kind == K_RUN_DETACHED || p.jobs[i].kind == K_RESUME_SP || p.jobs[i].kind == K_RUN_ASYNC) && ((amask >> (i + 4)) & 1));     // (resume(suspend_point): the suspend point carries TWO coroutines)
     uint8_t x = r.u8();     // trailing byte (older replay files keep their meaning)
     p.wait_first = (uint8_t)((x & 1) && (p.stop_who == 0 || p.stop_who == 3));
     for (unsigned i = 0; i < n; i++) p.jobs[i].inner = (uint8_t)((p.jobs[i].kind == K_RUN_FN || p.jobs[i].kind == K_RUN_DETACHED) && ((x >> (5 + i)) & 1));
@@ -42,7 +42,7 @@ inline std::string describe(const Prog &p) {
     static const char *kn[] = {"co_await pool", "co_await pool(ready awaitable)", "co_await pool(pending awaitable)", "run(fn)", "run_detached(fn)", "run(async)", "resume(suspend_point)"};
     static const char *sw[] = {"destructor only", "owner stop() before job #", "a pool job calls stop() after job #", "owner stop() after all jobs, then destructor"};
     hz::Desc d; d << "pool(" << (unsigned)p.workers << " workers); jobs:";
-    for (auto &j : p.jobs) d << " [" << (j.where ? "2nd thread, " : "") << "yield*" << (unsigned)j.yields << ", " << kn[j.kind] << (j.again ? ", then co_await thread_pool::current()" : "") << (j.big ? (j.kind == K_RESUME_SP ? ", two coroutines in the suspend point" : ", 128-byte closure") : "") << (j.conc ? ", awaitable resolved by a helper thread" : "") << (j.inner ? ", the job creates, uses and destroys a private pool of its own" : "") << "]";
+    for (auto &j : p.jobs) d << " [" << (j.where ? "2nd thread, " : "") << "yield*" << (unsigned)j.yields << ", " << kn[j.kind] << (j.again ? ", then co_await thread_pool::current()" : "") << (j.big ? (j.kind == K_RESUME_SP ? ", two coroutines in the suspend point" : j.kind == K_RUN_ASYNC ? ", the coroutine suspends on the pool once more" : ", 128-byte closure") : "") << (j.conc ? ", awaitable resolved by a helper thread" : "") << (j.inner ? ", the job creates, uses and destroys a private pool of its own" : "") << "]";
     if (p.rdv_a >= 0) d << "; job #" << p.rdv_a << " keeps its worker until job #" << p.rdv_b << " has started";
     d << "; stop: " << (p.wait_first ? "the owner waits for every result, then " : "") << sw[p.stop_who];
     if (p.stop_who == 1 || p.stop_who == 2) d << (unsigned)p.stop_pos;
@@ -119,7 +119,15 @@ inline cocls::async<void> job_coawait_awt(Ctx &c, int i, cocls::future<int> *gat
     try { int v = co_await (*c.pp)(*gate); c.mark_ran(i); HZ_CHECK(v == 5, "co_await pool(awaitable) returned %d instead of the awaitable's value 5", v); c.touch_pool(); }
     catch (const cocls::await_canceled_exception &) { c.j[(size_t)i].cancelled++; c.touch_pool(); }
 }
-inline cocls::async<int> job_async(Ctx &c, int i) { c.mark_ran(i); co_return 9; }
+inline cocls::async<int> job_async(Ctx &c, int i) {
+    c.mark_ran(i);
+    if (c.p->jobs[(size_t)i].big) {
+        // the coroutine handed to run(async) suspends: it goes to the end of the pool's queue once more (continues at once, with an
+        // exception, if the pool is being stopped); the worker that started it must be free to serve that
+        try { co_await *c.pp; c.j[(size_t)i].ran2++; } catch (const cocls::await_canceled_exception &) { c.j[(size_t)i].cancelled2++; }
+    }
+    co_return 9;
+}
 inline cocls::async<void> job_parked_b(Ctx &c, int i, cocls::future<void> *gate) {
     try { co_await *gate; JRec &r = c.j[(size_t)i]; r.ran_b++; r.on_worker_b = is_current(*c.pp); r.t_ran_b = hz::tick(); }
     catch (const cocls::await_canceled_exception &) {}
@@ -271,6 +279,8 @@ inline void run(hz::Reader &rd, bool allow_self_stop) {
                 HZ_CHECK(c.co_done_b[i] && c.co_done_b[i]->ready() && r.ran_b == 1, "job %zu: the second coroutine carried by the suspend point handed to resume() ran %d times (every carried coroutine is handed to the pool)", i, r.ran_b);
                 if (!r.on_worker_b) HZ_CHECK(r.t_ran_b > c.t_stop_begin, "job %zu: the second coroutine of the suspend point handed to resume() ran outside the pool's workers although the pool had not been stopped yet", i);
             }
+            if (r.kind == K_RUN_ASYNC && p.jobs[i].big && r.ran)
+                HZ_CHECK(r.ran2 + r.cancelled2 == 1, "job %zu (run(async) whose coroutine suspends on the pool again): it continued %d times and was cancelled %d times (exactly one of the two expected)", i, r.ran2, r.cancelled2);
             if (p.jobs[i].again && r.ran) {
                 HZ_CHECK(r.ran2 + r.cancelled2 == 1, "job %zu re-submitted itself with co_await thread_pool::current(): it continued %d times and was cancelled %d times (exactly one of the two expected)", i, r.ran2, r.cancelled2);
                 if (r.ran2) HZ_CHECK(r.on_worker2, "job %zu continued after co_await thread_pool::current() without exception, but not on one of the pool's worker threads", i);
